@@ -53,7 +53,15 @@ static inline void verif_memmove_loop(uint8_t* d, const uint8_t* s, uint64_t n) 
   { for (uint64_t i = n; i > 0; i--) d[i - 1] = s[i - 1]; }
   else { for (uint64_t i = 0; i < n; i++) d[i] = s[i]; }
 }
-static inline void verif_memset_loop(uint8_t* d, uint8_t c, uint64_t n) { for (uint64_t i = 0; i < n; i++) d[i] = c; }
+/* opt-in (unit gen_defs 'VERIF_MEMSET_BULK_N=16384'): a fill whose length equals this one constant at run time (e.g. the
+ * std::string(16384, 0) blocks of read_all, where the length reaches memset through a reference and is not a C constant)
+ * is done by one constant-size memset instead of N loop iterations. Same semantics as the loop. */
+static inline void verif_memset_loop(uint8_t* d, uint8_t c, uint64_t n) {
+#ifdef VERIF_MEMSET_BULK_N
+  if (n == VERIF_MEMSET_BULK_N) { memset(d, c, VERIF_MEMSET_BULK_N); return; }
+#endif
+  for (uint64_t i = 0; i < n; i++) d[i] = c;
+}
 #ifdef VERIF_BUILTIN_MEM
 #define verif_memcpy(d, s, n) do { if (n) memcpy((d), (s), (n)); } while (0)
 #define verif_memmove(d, s, n) do { if (n) memmove((d), (s), (n)); } while (0)
